@@ -18,7 +18,19 @@ M = []
 
 
 def mut(name, props, file, old, new, why, nth=None):
-    M.append(dict(name=name, props=props.split(","), file=file, old=old, new=new, why=why, nth=nth))
+    M.append(dict(name=name, props=props.split(","), file=file, old=old, new=new, why=why, nth=nth, expect_miss=EXPECT_MISS.get(name)))
+
+
+# changes that break no listed property as it is stated: kept in the sweep as controls (a check that
+# fired on one of them would be demanding more than its statement)
+EXPECT_MISS = {
+    "cert-before-key": "C03 quantifies over CA and network behaviour only; both writes happen after the last exchange, so their order is invisible to it",
+    "key-always-new": "harmless: the pair stays consistent",
+    "contacts-hash-not-recorded-at-registration": "harmless: one superfluous contact update, the CA's record stays in line",
+    "no-wait-between-retries": "C08 does not speak of the wait between transmissions",
+    "nonce-taken-before-lock": "behaviour identical",
+    "url-of-other-request": "the JWS url still equals the URL the request is sent to (C04 holds); no listed property speaks of which URL the challenge response goes to; the attempt fails and is reported as failed",
+}
 
 
 # ---- C01: what is ordered / requested is what is configured
@@ -61,10 +73,9 @@ mut("clean-before-validation", "C05,C10", A + "acme_proto.rs",
     "\t\t// Pool the authorization in order to see whether or not it is valid\n",
     "\t\tfor (data, hook_type) in hook_datas.iter() {\n\t\t\tcert.call_challenge_hooks_clean(data, (*hook_type).to_owned())\n\t\t\t\t.await?;\n\t\t}\n\t\thook_datas.clear();\n",
     "clean hooks run before the CA has validated")
-mut("respond-before-hook", "C05", A + "acme_proto.rs",
-    "\t\t\t\tlet mut data = cert\n\t\t\t\t\t.call_challenge_hooks(&file_name, &proof, raw_proof, &identifier, is_wildcard)\n\t\t\t\t\t.await?;\n\t\t\t\tdata.0.is_clean_hook = true;\n\t\t\t\thook_datas.push(data);\n",
-    "",
-    "challenge hook not called at all (would not compile if `data` were used later)")
+mut("http-hooks-skipped", "C05", A + "certificate.rs", "\t\thooks::call(self, &self.hooks, &hook_data, hook_type.0).await?;",
+    "\t\tif !matches!(identifier.challenge, Challenge::Http01) {\n\t\t\thooks::call(self, &self.hooks, &hook_data, hook_type.0).await?;\n\t\t}",
+    "http-01 challenge hooks not run, the CA is told the challenge is ready all the same")
 mut("proof-with-past-key", "C05", A + "acme_proto.rs", "challenge.get_proof(&account_s.read().await.current_key.key)?;",
     "{ let a = account_s.read().await; let k = a.past_keys.first().map(|k| k.key.clone()).unwrap_or_else(|| a.current_key.key.clone()); challenge.get_proof(&k)? };",
     "proof computed with the first past key when there is one")
@@ -173,7 +184,7 @@ def main():
             results[m["name"]] = {"status": "pattern_not_unique", "n": n}
             continue
         open(path, "w").write(src.replace(m["old"], m["new"]))
-        rec = {"props": m["props"], "file": m["file"], "why": m["why"], "checks": {}}
+        rec = {"props": m["props"], "file": m["file"], "why": m["why"], "expect_miss": m["expect_miss"], "checks": {}}
         try:
             for prop in m["props"]:
                 t0 = time.time()
@@ -190,10 +201,12 @@ def main():
         finally:
             sh("git checkout -- .", cwd=REPO)
         results[m["name"]] = rec
-        print("%-40s %s %s" % (m["name"], "CAUGHT" if rec["caught"] else "missed", {p: (c["exit"], c["kinds"][:3]) for p, c in rec["checks"].items()}), flush=True)
+        print("%-40s %s %s" % (m["name"], "CAUGHT" if rec["caught"] else ("missed (control: expected)" if m["expect_miss"] else "MISSED"), {p: (c["exit"], c["kinds"][:3]) for p, c in rec["checks"].items()}), flush=True)
         json.dump(results, open(out_path, "w"), indent=1, sort_keys=True)
-    caught = sum(1 for r in results.values() if r.get("caught"))
-    print("sweep: %d of %d caught" % (caught, sum(1 for r in results.values() if "caught" in r)))
+    real = [r for r in results.values() if "caught" in r and not r.get("expect_miss")]
+    ctl = [r for r in results.values() if "caught" in r and r.get("expect_miss")]
+    print("sweep: %d of %d property-breaking changes caught; %d of %d controls (no listed property broken) left alone" % (
+        sum(1 for r in real if r["caught"]), len(real), sum(1 for r in ctl if not r["caught"]), len(ctl)))
 
 
 if __name__ == "__main__":
